@@ -41,6 +41,20 @@ type chainCase struct {
 	Reqs      []reqSpec  `json:"reqs"`
 	Pipelined bool       `json:"pipelined,omitempty"` // bolt: all requests written before any answer is awaited
 	RetryOn   bool       `json:"retry_on,omitempty"`  // the routes carry a retry policy: an answer of a filter must never be "retried" upstream
+	// Broken: positions (in the configured stream_filters list, 0 = in front of everything) at which an entry stands that
+	// MOSN cannot build - "unknown" = a filter type nobody registered, "error" = the registered creator refuses the
+	// config. MOSN skips such entries; the chain is what the remaining entries say, in their order.
+	Broken []brokenSpec `json:"broken_entries,omitempty"`
+	// Repush: the listener's configuration is delivered again through the runtime update path (LDS / debug API deliver
+	// the whole listener every time) - "same" = unchanged, "touched" = only the broken entries' configs differ - before
+	// the first request (RepushAt 0) or after it (1). The chain it describes is the same chain.
+	Repush   string `json:"repush,omitempty"`
+	RepushAt int    `json:"repush_at,omitempty"`
+}
+
+type brokenSpec struct {
+	At   int    `json:"at"`
+	Kind string `json:"kind"`
 }
 
 var answerCodes = []int{200, 403, 404, 429, 500, 503}
@@ -120,6 +134,18 @@ func genCase(rt *rapid.T, misplaced bool) chainCase {
 		c.Recv[i].Scripts[0] = append(sc, "Z"+strconv.Itoa(rapid.SampledFrom(answerCodes).Draw(rt, "slowCode")))
 		c.Reqs[0].LeaveMs = 5
 		c.Reqs[0].UpRetry = false
+	}
+	// entries MOSN cannot build, and the configuration delivered again (a third of the cases each)
+	if rapid.IntRange(0, 2).Draw(rt, "hasBroken") == 0 {
+		for k := rapid.IntRange(1, 2).Draw(rt, "nBroken"); k > 0; k-- {
+			c.Broken = append(c.Broken, brokenSpec{At: rapid.IntRange(0, nRecv+c.Send).Draw(rt, "brokenAt"), Kind: rapid.SampledFrom([]string{"unknown", "error"}).Draw(rt, "brokenKind")})
+		}
+	}
+	if rapid.IntRange(0, 2).Draw(rt, "repush") == 0 {
+		c.Repush = rapid.SampledFrom([]string{"same", "touched"}).Draw(rt, "repushKind")
+		if nReq > 1 && c.Reqs[0].LeaveMs == 0 {
+			c.RepushAt = rapid.IntRange(0, 1).Draw(rt, "repushAt")
+		}
 	}
 	if misplaced && !anyMisplaced {
 		i := rapid.IntRange(0, nRecv-1).Draw(rt, "misplacedFilter")
